@@ -119,6 +119,15 @@ theorem C20t_bounded (log : List Ev) (s : St) (h : runLog step (init false) log 
   have h0 : (init false).n = 0 := rfl
   omega
 
+/-- … in terms of the log alone: at most 15 moving events per `post` event. -/
+theorem C20t_bounded_per_post (log : List Ev) (s : St) (h : runLog step (init false) log = some s) :
+    nMoves log ≤ 15 * nPosts log := by
+  have h1 := C20t_bounded log s h
+  have h2 := n_runLog log (init false) s h
+  have h0 : (init false).n = 0 := rfl
+  rw [h2, h0] at h1
+  omega
+
 /-- the same bound from any state: a run that posts nothing new makes at most `mu s` moving steps -/
 theorem C20t_bounded_from (log : List Ev) (s s' : St) (h : runLog step s log = some s') :
     nMoves log + mu s' + 15 * s.n ≤ mu s + 15 * s'.n := mu_runLog log s s' h
@@ -146,6 +155,12 @@ theorem C20t_final_state (s : St) (hr : Reachable s) (hm : Maximal s) (x : Nat) 
   obtain ⟨log, hl⟩ := hr
   have h12 := inv12_of_accepted hl
   exact final_op s h12.i1 h12.i2 hm x hx
+
+/-- … and conversely: a state all of whose operations are finished or wait for MPI is maximal, so
+    `Finished ∨ AwaitsMpi` characterises the final states of maximal runs exactly. -/
+theorem C20t_maximal_iff (s : St) (hr : Reachable s) :
+    Maximal s ↔ ∀ x, x < s.n → Finished (s.op x) ∨ AwaitsMpi s (s.op x) :=
+  ⟨fun hm x hx => C20t_final_state s hr hm x hx, maximal_of_final s⟩
 
 /-- **(3) Nothing is lost by pika.**  In a reachable maximal state an operation that has not
     signalled its receiver is one whose MPI call succeeded and whose request MPI has not reported
@@ -304,5 +319,17 @@ example : (runLog step (init false) (tightLog.take 9 ++
 example : (runLog step (init false) (tightLog.take 8 ++ [.unlock 2])).map
     (fun s => ((s.op 0).pc == .waiting, (s.op 0).rs == .vec, (s.op 0).mpiDone, (s.op 0).sigs, s.inFlight, s.gac))
     = some (true, true, false, 0, 1, 1) := by decide
+
+/-- … and that state is maximal: a maximal run in which MPI has not reported ends with the operation
+    waiting, `all_in_flight_ = 1` (so `wait()` / `stop_polling` do not return, `Props/C20.lean`) -/
+def awaitSt : St := (runLog step (init false) (tightLog.take 8 ++ [.unlock 2])).getD (init false)
+
+example : Maximal awaitSt ∧ AwaitsMpi awaitSt (awaitSt.op 0) ∧ awaitSt.inFlight = 1 := by
+  have hn : awaitSt.n = 1 := by decide
+  have hw : AwaitsMpi awaitSt (awaitSt.op 0) := by unfold AwaitsMpi; decide
+  refine ⟨maximal_of_final _ (fun x hx => ?_), hw, by decide⟩
+  have : x = 0 := by omega
+  subst this
+  exact Or.inr hw
 
 end PikaVerif.C20t
